@@ -941,14 +941,16 @@ func (fc *funcContext) delegatedCall(expr *ast.CallExpr) (callable *expression, 
 		return fc.formatExpr("function() {}"), fc.formatExpr("[]")
 	}
 	sig := typesutil.Signature{Sig: fc.typeOf(expr.Fun).Underlying().(*types.Signature)}
-	args := fc.translateArgs(sig.Sig, expr.Args, expr.Ellipsis.IsValid())
 
 	if !isBuiltin && !isJs {
-		// Normal function calls don't require wrappers.
+		// Normal function calls don't require wrappers. The function value is
+		// evaluated before the arguments, as in an ordinary call.
 		callable = fc.translateExpr(expr.Fun)
+		args := fc.translateArgs(sig.Sig, expr.Args, expr.Ellipsis.IsValid())
 		arglist = fc.formatExpr("[%s]", strings.Join(args, ", "))
 		return callable, arglist
 	}
+	args := fc.translateArgs(sig.Sig, expr.Args, expr.Ellipsis.IsValid())
 
 	// Since some builtins or js.Object methods may not transpile into
 	// callable expressions, we need to wrap then in a proxy lambda in order
